@@ -177,7 +177,7 @@ func parseUse(line string) useTruth {
 					delivered++
 				}
 			}
-			if p[0] == "b1" {
+			if st, _ := bodyTokStatus(p[0]); st%2 == 1 {
 				if used != len(acc) {
 					return t // a truncated response: not generated
 				}
@@ -596,7 +596,7 @@ func respTokens(rng *rand.Rand, r []respPkg) []string {
 }
 
 func c03Gen(tier string, rng *rand.Rand, emit func(Case)) {
-	emit = withMidSends(rng, 4, emit)
+	emit = withStatusBits(rng, withMidSends(rng, 4, emit))
 	n := 400
 	if tier == "thorough" {
 		n = 4000
@@ -717,7 +717,7 @@ func c11Response(rng *rand.Rand) []respPkg {
 }
 
 func c11Gen(tier string, rng *rand.Rand, emit func(Case)) {
-	emit = withMidSends(rng, 4, emit)
+	emit = withStatusBits(rng, withMidSends(rng, 4, emit))
 	n := 400
 	if tier == "thorough" {
 		n = 4000
@@ -823,11 +823,20 @@ func useReferenceLine(line string) (string, bool) {
 				return "", false // inside a message: the answer depends on the packetisation
 			}
 			out = append(out, t)
-		case strings.HasPrefix(t, "b0:"):
-			body = append(body, unhx(t[3:])...)
-			changed = true
-		case strings.HasPrefix(t, "b1:"):
-			body = append(body, unhx(t[3:])...)
+		case strings.HasPrefix(t, "b") && strings.Contains(t, ":"):
+			i := strings.Index(t, ":")
+			st, ok := bodyTokStatus(t[:i])
+			if !ok {
+				return "", false
+			}
+			body = append(body, unhx(t[i+1:])...)
+			if st%2 == 0 {
+				changed = true
+				continue
+			}
+			if st != 1 {
+				changed = true // other status bits are dropped in the reference
+			}
 			out = append(out, "b1:"+hx(body))
 			body = nil
 		default:
